@@ -28,6 +28,11 @@ def make_record(spec):
         y = rng.standard_normal(N) * 2.0
     elif kind == "filtered":
         y = np.convolve(x, [0.5, -0.3, 0.2], mode="same") + 0.3 * rng.standard_normal(N) + 0.001 * np.arange(N)
+    elif kind == "dynrange":
+        # > 1e17 power dynamic range across bins, coherent everywhere (needs a 200 dB window: see trace_specs)
+        t = np.arange(N)
+        x = 1e4 * np.sin(0.011 * t + 0.3) + 1e-5 * x
+        y = 0.7 * np.roll(x, 1) + 2e-6 * rng.standard_normal(N)
     elif kind == "offset":
         y = 0.7 * x + 0.5 * rng.standard_normal(N) - 30.0
         x = x + 50.0 + 0.002 * np.arange(N)
